@@ -230,17 +230,18 @@ Example C08_siv_premises_inhabited :
   (let key := map N.of_nat (seq 1 64) in
    let pt := [1; 2; 3; 4; 5; 6; 7; 8; 9; 10; 11; 12; 13; 14; 15; 16; 17; 18; 19; 20] in
    let ad := [9; 9; 9] in
-   exists c, daead_encrypt toyAES VTink 16909060 key pt ad = Ok c /\ length c = 41%nat /\
-             daead_decrypt toyAES VTink 16909060 key c ad = Ok pt /\
-             daead_decrypt toyAES VTink 16909060 key c [9; 9] = Err /\
-             daead_decrypt toyAES VTink 16909060 key (firstn 20 c) ad = Err).
+   let c := match daead_encrypt toyAES VTink 16909060 key pt ad with Ok c => c | _ => [] end in
+   daead_encrypt toyAES VTink 16909060 key pt ad = Ok c /\ length c = 41%nat /\
+   daead_decrypt toyAES VTink 16909060 key c ad = Ok pt /\
+   daead_decrypt toyAES VTink 16909060 key c [9; 9] = Err /\
+   daead_decrypt toyAES VTink 16909060 key (firstn 20 c) ad = Err).
 Proof.
   split; [|split].
   - intros k b H. unfold toyAES. rewrite map_length. exact H.
   - intros k b. unfold toyAES, wfb. apply Forall_forall. intros y Hy.
     apply in_map_iff in Hy. destruct Hy as [x [<- _]].
     apply lxor_lt_256; apply N.mod_lt; discriminate.
-  - eexists. vm_compute. repeat split; reflexivity.
+  - vm_compute. repeat split; reflexivity.
 Qed.
 
 Example C08_kwp_premises_inhabited :
@@ -248,12 +249,13 @@ Example C08_kwp_premises_inhabited :
   (forall b, length b = 16%nat -> toyE (toyE b) = b) /\
   (forall b, wfb b -> wfb (toyE b)) /\
   (let d := map N.of_nat (seq 100 17) in
-   exists c, kwp_wrap toyE d = Ok c /\ length c = 32%nat /\ kwp_unwrap toyE c = Ok d /\
-             kwp_unwrap toyE (firstn 24 c) = Err /\ kwp_unwrap toyE (c ++ zeros 8) = Err).
+   let c := match kwp_wrap toyE d with Ok c => c | _ => [] end in
+   kwp_wrap toyE d = Ok c /\ length c = 32%nat /\ kwp_unwrap toyE c = Ok d /\
+   kwp_unwrap toyE (firstn 24 c) = Err /\ kwp_unwrap toyE (c ++ zeros 8) = Err).
 Proof.
   split; [|split; [|split]].
   - intros b H. unfold toyE. rewrite rev_length. exact H.
   - intros b _. apply rev_involutive.
   - intros b H. apply Forall_rev. exact H.
-  - eexists. vm_compute. repeat split; reflexivity.
+  - vm_compute. repeat split; reflexivity.
 Qed.
